@@ -14,7 +14,8 @@ CHECKS = {
             "diagnostics with plugins) is executed on seeded byte/token/subtree mutants and token soups of every .cairo file in the "
             "repository, on threads with the real tools' 8 MiB stack, under catch_unwind, a crash journal and a logical parser "
             "progress counter (hook H5). Held = no panic, abort, no-progress trip or out-of-file diagnostic span on the inputs "
-            "observed; nothing is claimed about inputs not generated.",
+            "observed; nothing is claimed about inputs not generated. Thorough tier: 1/16 of the quick workload is repeated in an "
+            "AddressSanitizer build of the harness and /repo (sanitizer_leg.sh asan).",
             "Trusted: the harness's worker supervision (journal + restart), the 8 MiB stack as the 'ordinary' limit, hook H5's "
             "threshold of 10^6 peeks without consuming a token.",
             "DESIGN.md 3/C09"),
@@ -89,7 +90,9 @@ CHECKS.update({
             "Whole projects are compiled repeatedly on fresh databases inside rayon pools of 1/2/4/16 threads with seeded delays at "
             "the warm-up task boundaries (hook H4), seeded prefixes of unrelated queries and both query orders; diagnostics, Sierra "
             "(debug-name and canonical), CASM and contract classes must equal the single-threaded reference byte for byte. The "
-            "number of distinct raw-intern-id fingerprints shows how many distinguishable interleavings were actually observed.",
+            "number of distinct raw-intern-id fingerprints shows how many distinguishable interleavings were actually observed. "
+            "Thorough tier: the quick workload is repeated under ThreadSanitizer (-Zbuild-std, sanitizer_leg.sh tsan), and a "
+            "parser-only database is queried from three threads under Miri (miri_leg.sh C12).",
             "Trusted: schedule diversity is sampled, not enumerated; hook H4 only adds delays at task boundaries.",
             "DESIGN.md 3/C12"),
     "C13": ("dbscen", "exploration",
@@ -97,7 +100,8 @@ CHECKS.update({
             "Seeded histories of 14 (quick) or 30 (thorough) edits of 15 kinds are applied to one long-lived database with "
             "different queries asked in between; at comparison points diagnostics (with locations) and Sierra are compared with a "
             "fresh database holding the same contents. salsa's `executing query` events prove reuse: the incremental side executed "
-            "~0.5% of the fresh side's queries on the unchanged tree.",
+            "~0.5% of the fresh side's queries on the unchanged tree. Thorough tier: 1/16 of the quick histories are repeated "
+            "under AddressSanitizer, and 16 mini-histories on a parser-only database run under Miri (miri_leg.sh C13).",
             "Trusted: override_file_content! as the edit mechanism on both sides.",
             "DESIGN.md 3/C13"),
     "C16": ("casm", "exploration",
